@@ -343,6 +343,16 @@ class FpTranslator:
             return local[src]
         if src in self.names:
             return self.names[src]
+        if isinstance(n, ast.Constant) and type(n.value) in (int, float):
+            return _fp_lit(float(n.value))
+        if isinstance(n, ast.UnaryOp) and isinstance(n.op, ast.USub) and isinstance(n.operand, ast.Constant) \
+                and type(n.operand.value) in (int, float):
+            return _fp_lit(-float(n.operand.value))
+        if isinstance(n, ast.Attribute) and ast.unparse(n.value) in ('self', 'cls', self.cls.name, 'type(self)'):
+            # a class-level numeric constant (e.g. a tolerance)
+            for st in self.cls.body:
+                if isinstance(st, ast.Assign) and len(st.targets) == 1 and ast.unparse(st.targets[0]) == n.attr:
+                    return self.expr(st.value, {})
         if isinstance(n, ast.BinOp) and isinstance(n.op, (ast.Sub, ast.Add)):
             op = 'fp.sub' if isinstance(n.op, ast.Sub) else 'fp.add'
             return f'({op} RNE {self.expr(n.left, local)} {self.expr(n.right, local)})'
@@ -363,6 +373,29 @@ class FpTranslator:
             op = {ast.Gt: 'fp.gt', ast.Lt: 'fp.lt', ast.GtE: 'fp.geq', ast.LtE: 'fp.leq'}[type(n.ops[0])]
             return f'({op} {self.expr(n.left, local)} {self.expr(n.comparators[0], local)})'
         raise Untranslatable(f'float expression {src[:60]}')
+
+
+def _fp_lit(x):
+    """Exact SMT-LIB literal of a Python double."""
+    import struct
+    bits = int.from_bytes(struct.pack('>d', x), 'big')
+    return f'(fp #b{bits >> 63} #b{(bits >> 52) & 0x7ff:011b} #x{bits & ((1 << 52) - 1):013x})'
+
+
+def _decode_c05_model(out):
+    """(now, s, d) as Python doubles from cvc5's get-value output (binary or hexadecimal literals)."""
+    import re
+    import struct
+
+    def bits_of(lit):
+        return lit[2:] if lit.startswith('#b') else bin(int(lit[2:], 16))[2:].zfill(4 * (len(lit) - 2))
+    m = re.search(r'\(bnow (#[bx][0-9a-f]+)\)', out)
+    nowv = struct.unpack('>d', int(bits_of(m.group(1)), 2).to_bytes(8, 'big'))[0]
+    vals = {}
+    for name, a, b, c in re.findall(r'\((s|d) \(fp (#b[01]) (#[bx][0-9a-f]+) (#[bx][0-9a-f]+)\)\)', out):
+        man = bits_of(c)[-52:].zfill(52)
+        vals[name] = struct.unpack('>d', int(bits_of(a) + bits_of(b).zfill(11) + man, 2).to_bytes(8, 'big'))[0]
+    return nowv, vals['s'], vals['d']
 
 
 def _c05_terms():
@@ -437,13 +470,14 @@ def lemmas_c05(workdir):
 (assert (fp.leq {zero} s)) (assert (fp.leq s now)) (assert (fp.leq now {two40}))
 (assert (fp.leq {zero} d)) (assert (fp.leq d {two40}))
 (define-fun mtc () (_ FloatingPoint 11 53) {mtc})
+(define-fun ulp () (_ FloatingPoint 11 53) (fp.sub RNE ((_ to_fp 11 53) (bvadd bnow #x0000000000000001)) now))
 (define-fun leave () Bool (not {stay}))
 (assert leave)
 """
 
     def query(k):
         mult = two if k == 2 else one
-        return prelude + f"(assert (fp.lt (fp.sub RTN now s) (fp.sub RTP d (fp.mul RTP {mult} mtc))))\n(check-sat)\n"
+        return prelude + f"(assert (fp.lt (fp.sub RTN now s) (fp.sub RTP d (fp.mul RTP {mult} ulp))))\n(check-sat)\n"
 
     def run(k, limit, values=False):
         path = os.path.join(workdir, f'c05_l1_{k}ulp.smt2')
@@ -460,23 +494,36 @@ def lemmas_c05(workdir):
 
     # -- translator validation: formula (evaluated with Python doubles) vs the real method --------------------
     def model_leaves(now, s, d):
-        mt = math.nextafter(now, math.inf) - now
-        return not ((d - (now - s)) > mt)
+        """The *translated* guard evaluated on concrete doubles (z3 on a ground formula)."""
+        import z3
+        bits = int.from_bytes(struct.pack('>d', now), 'big')
+        text = f"""(declare-const bnow (_ BitVec 64))
+(define-fun now () (_ FloatingPoint 11 53) ((_ to_fp 11 53) bnow))
+(declare-const s (_ FloatingPoint 11 53))
+(declare-const d (_ FloatingPoint 11 53))
+(assert (= bnow #x{bits:016x})) (assert (= s {_fp_lit(s)})) (assert (= d {_fp_lit(d)}))
+(define-fun mtc () (_ FloatingPoint 11 53) {mtc})
+(assert (not {stay}))
+"""
+        sol = z3.Solver()
+        sol.from_string(text)
+        r = str(sol.check())
+        if r not in ('sat', 'unsat'):
+            raise Untranslatable('ground evaluation of the translated guard: ' + r)
+        return r == 'sat'
     samples = [(0.30000000000000004, 0.1, 0.2), (1.0, 0.0, 1.0), (3.0, 1.0, 2.0000000000000004), (10.0, 0.0, 10.000000000000002),
                (1e6, 999999.9, 0.1), (2.0 ** 40, 0.5, 2.0 ** 40), (5.0, 5.0, 0.0), (7.25, 1.125, 6.125), (0.7, 0.1, 0.6),
                (123456.789, 23456.789, 100000.0), (1.1, 0.2, 0.9000000000000001), (8.0, 0.1, 7.9)]
     out1, t1 = run(1, 60, values=True)
     if out1.startswith('sat'):
-        import re
-        vals = re.findall(r'\(fp #b([01]) #b([01]+) #x([0-9a-f]+)\)', out1)
-        bv = re.search(r'\(bnow #x([0-9a-f]{16})\)', out1)
         try:
-            nowv = struct.unpack('>d', bytes.fromhex(bv.group(1)))[0]
-            fl = [struct.unpack('>d', int(a + b + bin(int(c, 16))[2:].zfill(52), 2).to_bytes(8, 'big'))[0] for a, b, c in vals[-2:]]
-            samples.append((nowv, fl[0], fl[1]))
+            samples.append(_decode_c05_model(out1))
         except Exception:
             pass
-    bad = [(a, b, c) for a, b, c in samples if model_leaves(a, b, c) != _c05_real_leaves(a, b, c)]
+    try:
+        bad = [(a, b, c) for a, b, c in samples if model_leaves(a, b, c) != _c05_real_leaves(a, b, c)]
+    except Untranslatable as e:
+        return [dict(base, status='inconclusive', detail=f'translator: {e}', lemma_discharged=False)]
     if bad:
         return [dict(base, status='error', detail=f'translated guard disagrees with Buffer._pass_part_downstream on {bad[:2]}')]
     res = [dict(base, name='C05-L1 sanity: the 1-ulp version of the bound is NOT valid (a model exists)',
@@ -495,11 +542,8 @@ def lemmas_c05(workdir):
     elif first == 'sat':
         r.update(status='violated', detail='2-ulp bound fails: ' + out2.replace('\n', ' ')[:300])
         try:
-            import re
-            bv = re.search(r'\(bnow #x([0-9a-f]{16})\)', out2)
-            vals = re.findall(r'\(fp #b([01]) #b([01]+) #x([0-9a-f]+)\)', out2)
-            nowv = struct.unpack('>d', bytes.fromhex(bv.group(1)))[0]
-            fl = [struct.unpack('>d', int(a + b + bin(int(c, 16))[2:].zfill(52), 2).to_bytes(8, 'big'))[0] for a, b, c in vals[-2:]]
+            nowv, sv, dv = _decode_c05_model(out2)
+            fl = [sv, dv]
             leaves = _c05_real_leaves(nowv, fl[0], fl[1])
             early = (nowv - fl[0]) < fl[1] - 2 * (math.nextafter(nowv, math.inf) - nowv)
             rp = os.path.join(os.path.dirname(os.path.dirname(os.path.abspath(__file__))), 'replays', 'C05-L1.json')
